@@ -419,26 +419,26 @@ func (m *Uint64Map) EachItem(f func(id uint64, tagged []Tagged, goroutine int) e
 			Tags: make([]Tagged, 0, m.MaxBucketLength()/8),
 		}
 		var err error
+	read:
 		for bucket := range buckets {
 			m.fillIDsAndTagged(bucket, &ids)
-			if len(ids.IDs) > 0 {
-				start := 0
-				for i := 1; i < len(ids.IDs); i++ {
-					if ids.IDs[i] != ids.IDs[start] {
-						if err = f(ids.IDs[start], ids.Tags[start:i], goroutine); err != nil {
-							break
-						}
-						start = i
+			start := 0
+			for i := 1; i <= len(ids.IDs); i++ {
+				if i == len(ids.IDs) || ids.IDs[i] != ids.IDs[start] {
+					// Stop at the first failing callback: calling f again
+					// would replace its error with the next result.
+					if err = f(ids.IDs[start], ids.Tags[start:i], goroutine); err != nil {
+						break read
 					}
-				}
-				if err = f(ids.IDs[start], ids.Tags[start:], goroutine); err != nil {
-					break
+					start = i
 				}
 			}
 		}
 		if err != nil {
 			lock.Lock()
-			cause = err
+			if cause == nil {
+				cause = err
+			}
 			cancel <- struct{}{}
 			lock.Unlock()
 		}
